@@ -25,7 +25,7 @@ flock 9
 if [ -f "$W/.ok" ]; then touch "$W/.ok"; echo "$W"; exit 0; fi
 
 # keep the three most recently used work dirs
-ls -1dt "$VERIF"/.work/*/ 2>/dev/null | tail -n +$((${VERIF_KEEP_WORK:-3}+1)) | while read -r d; do rm -rf "$d"; done
+ls -1dt "$VERIF"/.work/*/ 2>/dev/null | grep -E '/[0-9a-f]{16}/$' | tail -n +$((${VERIF_KEEP_WORK:-3}+1)) | while read -r d; do rm -rf "$d"; done
 
 rm -rf "$W"; mkdir -p "$W"
 LOG="$W/build.log"
